@@ -514,6 +514,7 @@ def table_mode():
     pins = []
     global W
     for io in range(5):
+      for peer in range(5):
         for init in (True, False):
             W = World({"ui": {"gen_i": 111111, "gen_r": 111111, "typed_i": 222222, "typed_r": 222222,
                               "nc_i": True, "nc_r": True}})
@@ -521,14 +522,14 @@ def table_mode():
             self.state = _St()
             self.state.initiator = _St()
             self.state.responder = _St()
-            self.state.initiator.iocap = io if init else 3
-            self.state.responder.iocap = 3 if init else io
+            self.state.initiator.iocap = io if init else peer
+            self.state.responder.iocap = peer if init else io
             self.is_initiator = (lambda v=init: v)
             try:
                 v = SMPLayer.get_pin_code(self)
-                pins.append([io, init, "typed" if v == 222222 else ("generated" if v == 111111 else "other")])
+                pins.append([io, peer, init, "typed" if v == 222222 else ("generated" if v == 111111 else "other")])
             except Exception as e:   # noqa
-                pins.append([io, init, "raise:" + type(e).__name__])
+                pins.append([io, peer, init, "raise:" + type(e).__name__])
     res["pins"] = pins
     return res
 
